@@ -577,6 +577,10 @@ func pickCutoff(g *core.G, n int) (float64, string) {
 	case r < 88:
 		return 0.5 + float64(g.Intn(33))/64, "dyadic"
 	default:
+		if g.Chance(0.3) { // not a finite number: NaN compares false with everything (accepted before def0221)
+			nf := []float64{math.NaN(), math.NaN(), math.Inf(1), math.Inf(-1)}
+			return nf[g.Intn(len(nf))], "nonfinite"
+		}
 		outs := []float64{0.49, 0.4999999999999999, 1.0000000000000002, 1.01, 0, -1, 2, 0.25, 1.5}
 		return outs[g.Intn(len(outs))], "outside"
 	}
@@ -633,7 +637,12 @@ func collection(g *core.G) ([]*core.N, core.TreeOpts) {
 		ns[i] = variant(g, &o, base, pC, pN, rooting)
 		if tipRooted && g.Chance(0.6) { // rooted at a tip (5a3a76a)
 			if u := unrootN(ns[i]); len(u.Kids) >= 3 {
-				ns[i] = tipRoot(g, u)
+				tr := tipRoot(g, u)
+				// CLI tier: a numeric-looking name on a tip root cannot go through Newick (the label
+				// of a node that has a child is read back as a support value, the taxon is lost)
+				if _, err := strconv.ParseFloat(tr.Name, 64); funny || err != nil {
+					ns[i] = tr
+				}
 			}
 		}
 		if withSingles {
@@ -687,8 +696,11 @@ func genClif(c *core.Ctx) {
 	case r < 10:
 		bad := []string{"abc", "0.5.1", "1e", "0,5", "--", "0x", "1e+"}
 		ft, kind = bad[g.Intn(len(bad))], "clif-badfloat"
-	case r < 20:
+	case r < 16:
 		ft, kind = "", "clif-default"
+	case r < 20: // the special values of strconv.ParseFloat (and two near misses: flag errors)
+		sp := []string{"NaN", "nan", "NAN", "inf", "+Inf", "-inf", "Infinity", "-INFINITY", "+nan", "infinit"}
+		ft, kind = sp[g.Intn(len(sp))], "clif-nonfinite"
 	case r < 35:
 		ft, kind = fTexts(g, []float64{0.5, 1}[g.Intn(2)]), "clif-edge"
 	case r < 50:
@@ -727,7 +739,7 @@ func genCase(c *core.Ctx, cli bool) {
 			ns[i].Kids = append(ns[i].Kids, &core.N{Name: "zz", E: e})
 		}
 		emitCons(c, kind+"-taxa", cli, ns, cutoff)
-	case r < 35 && !cli:
+	case r < 35 && !cli && ck != "nonfinite":
 		emitInv(c, kind, ns, transform(g, ns), cutoff)
 	default:
 		emitCons(c, kind, cli, ns, cutoff)
